@@ -119,6 +119,13 @@ func (c *checker) buildCanon() *canon {
 		}
 	}
 	for k := range c.userRestores {
+		// A user restore is part of the agreed history only if the index it
+		// burned stayed a hole: when the restoring leader lost its leadership
+		// before replicating the restore, the rest of the cluster commits an
+		// ordinary entry at that index and the restored state is abandoned.
+		if !c.restoreAdopted(c.userRestores[k]) {
+			continue
+		}
 		items = append(items, item{idx: c.userRestores[k].burned, base: &c.userRestores[k]})
 	}
 	sort.Slice(items, func(i, j int) bool { return items[i].idx < items[j].idx })
@@ -204,3 +211,17 @@ func (c *checker) isUserRestoreSnap(sc snapCheck) bool {
 // firstCoveredByStart: the stream of a fresh incarnation starts after whatever
 // its start-up restore covered; if there was no restore event, nothing is covered.
 func (c *checker) firstCoveredByStart(k instKey, idx uint64) bool { return false }
+
+// restoreAdopted: did the cluster's agreed history go on from this user
+// restore? The burned index stayed a hole and later entries were committed.
+func (c *checker) restoreAdopted(u userRestore) bool {
+	if c.G[u.burned] != nil {
+		return false
+	}
+	for i := range c.G {
+		if i > u.burned {
+			return true
+		}
+	}
+	return false
+}
